@@ -42,7 +42,8 @@ DTYPES = [None, "Float", "Integer", "Positive Float", "Positive Integer", "Fuzzy
 
 # narrow integer results holding the extreme values of their type, among them the value NetCDF uses as the DEFAULT fill of the type (255, 65535, -32767):
 # a complete grid must come back complete (the values numpy.ma picks as its own marker for these types, 999999 wrapped to 63 / 16959, are left out)
-NARROW = {"u1": ("u1", [255, 0, 7, 200, 1, 254]), "u2": ("u2", [65535, 0, 1, 40000, 2, 65534]), "i2": ("i2", [-32767, 0, 5, 32767, -32768, 7])}
+NARROW = {"u1": ("u1", [255, 0, 7, 200, 1, 254]), "u2": ("u2", [65535, 0, 1, 40000, 2, 65534]), "i2": ("i2", [-32767, 0, 5, 32767, -32768, 7]),
+          "u8": ("u8", [5, 0, 7, 2 ** 40, 1, 3])}  # (uint64: what a Positive Integer read delivers)
 
 
 def BOUND(tier):
@@ -59,7 +60,7 @@ def cases(tier):
     yield ("templates",)
     yield ("chain",)
     for gi in range(len(GRIDS)):
-        for kinds in (("f",), ("i",), ("f", "f"), ("f", "i"), ("i", "f"), ("u1",), ("u2",), ("i2",), ("u1", "f")):
+        for kinds in (("f",), ("i",), ("f", "f"), ("f", "i"), ("i", "f"), ("u1",), ("u2",), ("i2",), ("u1", "f"), ("u8",), ("u8", "f")):
             yield ("write", gi, kinds, tier)
 
 
